@@ -14,6 +14,8 @@ from engine import pat
 from engine.util import own_nodes, calls_with_nodes, where
 
 RULES = {
+    "R-05.9": "a field printed in chunks (hex/base64 broken at the style's chunk size with the style's separator) is the LAST field of the text form, where the reader concatenates the remaining tokens; anywhere else the chunks parse as separate fields",
+    "R-05.8": "an enum member whose value has several bits set is a field VALUE (e.g. KEY flags NOKEY = both type bits): `flags & Member` is compared with the member under the field mask, never tested by truth value (which means 'any of the bits')",
     "R-05.7": "names inside records are printed by Name.to_styled_text: its relativity decisions (\"@\" for the origin, dropping the final dot) are taken on the name that is printed (C01 R-01.7 adopted)",
     "R-05.1": "wire encoding of an accepted record cannot fail: every integer fed to struct.pack is a field validated to fit the format width, a bounded length, a masked value or a constant",
     "R-05.1t": "text production cannot fail: to_styled_text/to_text of record and helper classes contain no operation that can raise for a validated field (decode of arbitrary octets, int(), unguarded subscripts, division)",
@@ -637,6 +639,92 @@ def run(model, rep, tier):
     check_validators(model, rep, "R-05.5")
     rep.assume("constructor validators (Rdata._as_*) are the only way fields are set (C07 R-07.2); float fields are outside the interval evaluator")
     rep.share(model, "C01", {"R-01.7"}, "R-05.7", "every embedded name of a record is rendered through Name.to_styled_text with the style's origin")
+    # ---------------------------------------------------------------- R-05.8
+    multibit = {}
+    for ci in model.classes.values():
+        if not ci.module.name.startswith("dns.rdtypes") or not any("Enum" in (b or "") or "Flag" in (b or "") for c in ci.mro for b in getattr(c, "external_bases", [])):
+            if not ci.module.name.startswith("dns.rdtypes"):
+                continue
+        for k, v in model.enum_members(ci).items():
+            if isinstance(v, int) and not isinstance(v, bool) and bin(v).count("1") > 1:
+                multibit[f"{ci.name}.{k}"] = v
+    n_mb = 0
+    for f8 in sorted(model.all_functions(), key=lambda g: g.qualname):
+        if not f8.module.name.startswith("dns.rdtypes"):
+            continue
+        for n in ast.walk(f8.node):
+            if not isinstance(n, (ast.If, ast.While, ast.IfExp, ast.Assert)):
+                continue
+            for a in atoms(normalise_compare(n.test)):
+                if a[1] not in ("truthy", "falsy"):
+                    continue
+                try:
+                    e = ast.parse(a[0], mode="eval").body
+                except SyntaxError:
+                    continue
+                if isinstance(e, ast.BinOp) and isinstance(e.op, ast.BitAnd):
+                    for side in (e.left, e.right):
+                        key = ".".join(src(side).split(".")[-2:])
+                        if key in multibit:
+                            n_mb += 1
+                            rep.bad("R-05.8", f8.qualname, where(f8, n), f"`{a[0]}` is tested by truth value, but {key} = {multibit[key]:#x} has {bin(multibit[key]).count('1')} bits set: the test is true when ANY of them is set, "
+                                    "so field values that share one bit with it are treated like it (text written for them does not parse back)", stmt=f"multibit-truth {key}")
+    rep.floor("R-05.8-multibit-members", len(multibit), 5)
+    rep.ok("R-05.8", "dns.rdtypes", "-", f"{len(multibit)} multi-bit enum members; none is and-ed and tested by truth value", stmt="multibit-members")
+    # ---------------------------------------------------------------- R-05.9
+    n_ch = 0
+    CHUNKERS = ("_styled_hexify", "_styled_base64ify", "_hexify", "_base64ify")
+    for f9 in sorted(model.all_functions(), key=lambda g: g.qualname):
+        if f9.name != "to_styled_text" or not (f9.module.name.startswith("dns.rdtypes") or f9.module.name == "dns.rdata"):
+            continue
+        restyled = any(isinstance(x, ast.Assign) and any(src(t_) == "style" for t_ in x.targets) for x in ast.walk(f9.node))
+
+        def chunked(c):
+            if not (isinstance(c, ast.Call) and src(c.func).split(".")[-1] in CHUNKERS):
+                return False
+            nm = src(c.func).split(".")[-1]
+            if nm.startswith("_styled"):
+                return len(c.args) >= 2 and src(c.args[1]) == "style" and not restyled
+            if len(c.args) >= 2 and isinstance(c.args[1], ast.Constant) and c.args[1].value == 0:
+                return False
+            sep = c.args[2] if len(c.args) >= 3 else next((k.value for k in c.keywords if k.arg == "separator"), None)
+            return not (isinstance(sep, ast.Constant) and isinstance(sep.value, (str, bytes)) and sep.value.strip())
+        locs = {t_.id for x in ast.walk(f9.node) if isinstance(x, ast.Assign) and chunked(x.value) for t_ in x.targets if isinstance(t_, ast.Name)}
+        calls = [c for c in ast.walk(f9.node) if chunked(c)]
+        if not calls:
+            continue
+
+        def parts(e):
+            if isinstance(e, ast.JoinedStr):
+                out = []
+                for v in e.values:
+                    out += parts(v.value) if isinstance(v, ast.FormattedValue) else [v]
+                return out
+            if isinstance(e, ast.BinOp) and isinstance(e.op, ast.Add):
+                return parts(e.left) + parts(e.right)
+            return [e]
+        for c in calls:
+            n_ch += 1
+        uses = [x for x in ast.walk(f9.node) if isinstance(x, ast.Name) and isinstance(x.ctx, ast.Load) and x.id in locs]
+        rets = [r for r in ast.walk(f9.node) if isinstance(r, ast.Return) and r.value is not None]
+        in_ret = set()
+        okk, why = True, ""
+        for r in rets:
+            ps = parts(r.value)
+            idx = [i for i, p_ in enumerate(ps) if (isinstance(p_, ast.Name) and p_.id in locs) or chunked(p_)]
+            for i in idx:
+                in_ret.add(id(ps[i]))
+                later = [p_ for p_ in ps[i + 1:] if not (isinstance(p_, ast.Constant) and isinstance(p_.value, str) and not p_.value.strip())]
+                if later:
+                    okk, why = False, f"`{src(ps[i])[:40]}` is followed by `{src(later[0])[:30]}` in `{src(r.value)[:60]}`"
+        stray = [u for u in uses if id(u) not in in_ret] + [c for c in calls if id(c) not in in_ret and not any(isinstance(x, ast.Assign) and x.value is c for x in ast.walk(f9.node))]
+        if stray and okk:
+            rep.blind("R-05.9", f9.qualname, where(f9, stray[0]), f"chunked value used outside the returned text (`{src(stray[0])[:40]}`): position in the text form not determined", stmt="chunked-last")
+        else:
+            rep.check(okk, "R-05.9", f9.qualname, where(f9, f9.node), "the chunked field is the last field of the text form",
+                      f"{why}: with the default style a long value is broken into space-separated chunks, and only the LAST field is read back with concatenate_remaining_identifiers - "
+                      "the chunks of a middle field are read as the following fields, so the text does not parse back", stmt="chunked-last")
+    rep.floor("R-05.9", n_ch, 10)
     rep.meta["explanation"] = (
         "Interval evaluation of every struct.pack argument in ~60 wire encoders against the ranges established by constructor validators (field table read from __init__), a local scan of every text "
         "producer for operations that can raise on validated data, folded escape-table comparison for quoted strings, and a per-field check that octet-wise printing is paired with octet-wise parsing. "
@@ -644,6 +732,10 @@ def run(model, rep, tier):
 
 
 WITNESSES = [
+    {"id": "c05-key-nokey-any-bit", "rule": "R-05.8", "file": "dns/rdtypes/ANY/KEY.py", "expect": "fires",
+     "old": "        if (flags & DNS_KEYFLAG_TYPEMASK) != LegacyFlag.NOKEY:", "new": "        if not (flags & LegacyFlag.NOKEY):"},
+    {"id": "c05-nsec3-salt-chunked", "rule": "R-05.9", "file": "dns/rdtypes/ANY/NSEC3.py", "expect": "fires",
+     "old": "            salt = binascii.hexlify(self.salt).decode()", "new": "            salt = dns.rdata._styled_hexify(self.salt, style)"},
     {"id": "c05-ttl-units-unbounded", "rule": "R-05.5", "file": "dns/ttl.py", "expect": "fires",
      "edits": [{"file": "dns/ttl.py", "old": "    if text.isdecimal():\n        total = int(text)\n", "new": "    if text.isdecimal():\n        total = int(text)\n        if total > MAX_TTL:\n            raise BadTTL\n"},
                {"file": "dns/ttl.py", "old": "    if total < 0 or total > MAX_TTL:", "new": "    if total < 0:"}]},
